@@ -29,7 +29,8 @@ BIRTH = {}
 
 
 def plan(tier):
-    return common.std_plan(tier)
+    # state-dependent code paths are where out-of-bounds reads hide (they rarely change a number): more bounds-checked histories
+    return common.std_plan(tier, bounds_quick=2)
 
 
 def required_counters(tier):
@@ -285,7 +286,7 @@ def run(ctx):
         ctx.counters["icontract_missing"] = 1
     dtypes = common.ALL_DTYPE_SHARDS[ctx.shard % len(common.ALL_DTYPE_SHARDS)]
     rng = gen.rng_for(ctx.seed, "C13", ctx.shard, 1 if ctx.mode != "prod" else 0)
-    nh = N_HIST[ctx.tier] if ctx.mode == "prod" else max(20, N_HIST[ctx.tier] // 3)
+    nh = N_HIST[ctx.tier] if ctx.mode == "prod" else max(20, N_HIST[ctx.tier] // 2)
     for i in range(nh):
         rep = ["contiguous", "chunked", "chunked", "arrow_chunked"][i % 4]
         ctx.run_case(gen_case(rng, dtypes, rep), check, features, nontrivial)
